@@ -151,7 +151,17 @@ impl FeoxStore {
                     Some(timestamp) => timestamp,
                     None => {
                         let minimum = retired_at.checked_add(1).ok_or(FeoxError::OlderTimestamp)?;
-                        self.get_timestamp(key).max(minimum)
+                        let timestamp = self.get_timestamp(key);
+                        if timestamp < minimum {
+                            // The retirement this call raced with (sweeper, another caller) is
+                            // newer than the shard clock. The version handed out here must be
+                            // known to the clock, or the next automatic version of this key
+                            // could equal it and be refused as older.
+                            self.version_clock.observe(key, minimum);
+                            minimum
+                        } else {
+                            timestamp
+                        }
                     }
                 };
                 if timestamp <= retired_at {
